@@ -336,3 +336,10 @@ PROPS["C06"] = {"level": "proof", "level_text": "TODO", "level_note": "TODO", "n
 U("thpool.wait_pool", src="units/thpool_unit.c", harness="h_wait_pool", enforce="wait_pool", defines=["V_POOL_WAIT"], logctx="THPOOL", loop_contracts=True,
   replace=["v_mutex_lock", "v_mutex_unlock", "v_cond_broadcast", "m_list_itr_new", "m_list_itr_next", "m_list_itr_get_data", "v_thread_join"],
   props=["C06", "C04"], contract_files=THP, native=False, timeout=200, min_obligations=20, must_have=["invariant after step"])
+for _h, _n, _props in (("mod", 24, ["C01", "C14", "C18", "C07", "C15"]), ("state", 8, ["C01", "C18", "C14", "C07"]), ("ps", 7, ["C15", "C14", "C18", "C02", "C09"]), ("ctx", 13, ["C07", "C15"])):
+    for _w in range(_n):
+        if (_h, _w) in (("mod", 20), ("ctx", 5)):
+            continue          # m_mod_dump / m_ctx_dump: logging only, out of scope (DESIGN.md appendix A); their formatting loops exhaust the solver
+        U("guards.%s#%d" % (_h, _w), src="units/guards.c", harness="h_guard_" + _h, plain=True, assert_false_bodies="(?!v_|__CPROVER|malloc|calloc|free|memcpy|memset|memcmp).*", logctx="CORE",
+          defines=["V_WHICH=%d" % _w], props=_props + ["C04"], contract_files=[], native=False, timeout=200, min_obligations=20, unwind=3,
+          unwindset={"v_strlen.0": 24, "v_strncmp.0": 12, "v_base_init.0": 7, "m_mod_register.0": 10})
